@@ -262,7 +262,36 @@ func (r *Runner) step(i int, op Op) {
 		err := r.S.DumpHints()
 		r.tracef("hint dump/merge err=%v", err)
 	case "restart":
-		removed, err := r.S.Restart(op.Rm)
+		var removed []string
+		var err error
+		if vr, ok := r.S.(VariantRestarter); ok && op.Variants != "" {
+			for k, e := range r.M.M {
+				if e.Ver < 0 {
+					r.tombUncertain[k] = true
+				}
+			}
+			r.setPhaseAll("restart")
+			var nv int
+			removed, nv, err = vr.RestartVariants(op.Rm, op.Variants, func(label string) {
+				// judge this variant against a private copy of the model state
+				// (what is adopted may differ between variants)
+				saveM, saveV, saveT := r.M, r.verUncertain, r.tombUncertain
+				r.M = r.M.Clone()
+				r.verUncertain = copyBools(saveV)
+				r.tombUncertain = copyBools(saveT)
+				r.tracef("variant %s", label)
+				if !r.failed {
+					r.CheckAll("variant-restart")
+				}
+				r.M, r.verUncertain, r.tombUncertain = saveM, saveV, saveT
+			})
+			r.Rep.Event("restart.variants", int64(nv))
+		} else {
+			removed, err = r.S.Restart(op.Rm)
+		}
+		if r.failed {
+			return
+		}
 		r.Restarts++
 		r.tracef("restart rm=%q removed=%v err=%v", op.Rm, removed, err)
 		if err != nil {
@@ -297,6 +326,29 @@ func (r *Runner) step(i int, op Op) {
 	default:
 		r.violate("bad-op", "unknown op %q", op.K)
 	}
+}
+
+// MarkRestart tells the runner that the store was reopened by the harness
+// itself (outside a "restart" op).
+func (r *Runner) MarkRestart(phase string) {
+	for k, e := range r.M.M {
+		if e.Ver < 0 {
+			r.tombUncertain[k] = true
+		}
+	}
+	r.setPhaseAll(phase)
+	r.Restarts++
+}
+
+// Tracef lets harness code add lines to the operation trace.
+func (r *Runner) Tracef(format string, a ...interface{}) { r.tracef(format, a...) }
+
+func copyBools(m map[string]bool) map[string]bool {
+	c := make(map[string]bool, len(m))
+	for k, v := range m {
+		c[k] = v
+	}
+	return c
 }
 
 func rmClass(rm string) string {
